@@ -27,6 +27,8 @@ def ok_purls(ans):
 def oracle_C01(ctx, cases, answers):
     v = []
     for i, (c, a) in enumerate(zip(cases, answers)):
+        if c["req"].startswith("parsel ") and a.startswith("p=OK") and " p2eq=T" not in a:
+            v.append((i, "canonical string of an accepted (huge) input does not parse to an equal PURL: %s" % a))
         if not c["req"].startswith("parse "):
             continue
         f = fields(a)
@@ -238,6 +240,8 @@ def oracle_C06(ctx, cases, answers):
     for i, (c, a) in enumerate(zip(cases, answers)):
         if a.strip() == "PANIC" and not c.get("documented_panic"):
             v.append((i, "panic on request %s" % c["req"][:300]))
+        if a.startswith("HANG") or a.startswith("ABORT"):
+            v.append((i, "%s on request %s" % (a, c["req"][:300])))
         if " s=PANIC" in a and not c["req"].startswith("shape "):
             v.append((i, "formatting panicked for a built-in type parameter"))
     return v
@@ -248,6 +252,8 @@ def oracle_C06(ctx, cases, answers):
 def oracle_C10(ctx, cases, answers):
     v = []
     for i, (c, a) in enumerate(zip(cases, answers)):
+        if c["req"].startswith("parsel ") and a.startswith("p=OK") and " rbeq=T" not in a:
+            v.append((i, "rebuilding an accepted (huge) PURL fails or changes it: %s" % a))
         f = fields(a)
         for pk in ("p", "b"):
             if f.get(pk, "").startswith("OK:"):
